@@ -6,6 +6,8 @@ import sys
 import time
 
 VERIF = os.path.dirname(os.path.dirname(os.path.abspath(__file__)))
+# evidence is only ever written for /repo itself; scratch runs (VERIF_REPO=<worktree>) go elsewhere
+EVID = os.path.join(VERIF, "evidence") if os.environ.get("VERIF_REPO", "/repo") == "/repo" else os.path.join(VERIF, ".cache", "evidence-scratch")
 
 
 class RuleBroken(Exception):
@@ -134,8 +136,8 @@ class Check:
             "wall_s": round(wall, 2),
             "violations": n_new,
         }
-        os.makedirs(os.path.join(VERIF, "evidence"), exist_ok=True)
-        with open(os.path.join(VERIF, "evidence", "%s.json" % self.prop), "w") as fh:
+        os.makedirs(EVID, exist_ok=True)
+        with open(os.path.join(EVID, "%s.json" % self.prop), "w") as fh:
             json.dump(ev, fh, indent=1)
             fh.write("\n")
         print("%s [%s] analysed: %s" % (self.prop, self.tier,
@@ -168,8 +170,8 @@ def fail_closed(prop, tier, level, err):
                      "obligations": 1, "discharged": 0, "checker_cmd": "./vcheck %s" % prop, "trusted_base": []},
         "assumptions": [], "wall_s": 0.0, "violations": 1,
     }
-    os.makedirs(os.path.join(VERIF, "evidence"), exist_ok=True)
-    with open(os.path.join(VERIF, "evidence", "%s.json" % prop), "w") as fh:
+    os.makedirs(EVID, exist_ok=True)
+    with open(os.path.join(EVID, "%s.json" % prop), "w") as fh:
         json.dump(ev, fh, indent=1)
     print("%s: rule could not be evaluated: %s" % (prop, err))
     print("VIOLATION property=%s replay=%s" % (prop, rp))
